@@ -31,7 +31,8 @@ FAMILIES = {
         "driver": "core", "monitor": "MonTrace",
         "exhaustive": {
             "quick": [mc("MCDataQ", "2 vBuckets (user,user | user,sys,adv), 1 saver, <=2 saves, <=2 acks, 1 crash, store may fail")],
-            "thorough": [mc("MCData", "2 vBuckets, 2 savers, <=2 saves, <=2 acks, 1 crash, store may fail", 5000)],
+            "thorough": [mc("MCData", "2 vBuckets, 2 savers, <=2 saves, 1 ack, 1 crash, store may fail", 5000),
+                         mc("MCData2", "2 vBuckets, 1 saver, <=2 saves, <=2 acks, 1 crash, store may fail", 5000)],
         },
         "simulate": {"quick": [sim("SimData", 150, 40)], "thorough": [sim("SimData", 2500, 48)]},
         "scenarios": [scen("ReplayData", "data.ndjson"), scen("WitReplayData", "wit_data.ndjson")],
@@ -58,7 +59,7 @@ FAMILIES = {
         "exhaustive": {
             "quick": [mc("MCLifeQ", "2 vBuckets, <=1 notification, 1 end, Close(), auto checkpoint, 1 event"),
                       mc("MCLifeFQ", "1 vBucket, Close() with saves that fail: the final save behind / is a failing save, 1 save, 1 ack")],
-            "thorough": [mc("MCLife", "2 vBuckets, <=2 notifications (bus+api), 2 ends, Close(), 1 save, 1 ack", 5000)],
+            "thorough": [mc("MCLife", "2 vBuckets, 1 notification, 2 stream ends of every cause (also while the session opens), Close(), 1 ack", 5000)],
         },
         "simulate": {"quick": [sim("SimLife", 60, 45, isolate=True), sim("SimLifeF", 25, 40, isolate=True)],
                      "thorough": [sim("SimLife", 800, 55, isolate=True), sim("SimLifeF", 400, 44, isolate=True)]},
@@ -93,7 +94,7 @@ FAMILIES["metric"] = {
     # Core.tla with the metrics endpoint scraped at any point: real metric.NewMetricCollector(...).Collect
     "driver": "core", "monitor": "MonTrace",
     "exhaustive": {"quick": [mc("MCMetricQ", "2 vBuckets, scrapes anywhere, 1 notification, 1 ack, consumer may block")],
-                   "thorough": [mc("MCMetric", "2 vBuckets, scrapes anywhere, mut/del/exp/sys, reserved keys, 1 notification, 1 end, Close(), 1 save, 2 acks", 5000)]},
+                   "thorough": [mc("MCMetric", "2 vBuckets, scrapes anywhere and from every lifecycle callback, mut/del, reserved keys, 1 notification, 1 end, Close(), 1 ack", 5000)]},
     "simulate": {"quick": [sim("SimMetric", 80, 55, isolate=True)], "thorough": [sim("SimMetric", 900, 55, isolate=True)]},
     "scenarios": [],
 }
@@ -103,7 +104,8 @@ FAMILIES["rm"] = {
     # vBucket in any order / vbUUID / absence against events waiting at the gate; Close() while events wait
     "driver": "core", "monitor": "MonTrace",
     "exhaustive": {"quick": [mc("MCRmQ", "1 vBucket, 2 copies, seqnos <=2, reports (uuid 1|2, seq 0..2) in any order, absent replica, Close()")],
-                   "thorough": [mc("MCRm", "1 vBucket, 3 copies, seqnos <=3, reports in any order, absent replicas, 1 ack, Close()", 5000)]},
+                   "thorough": [mc("MCRm", "1 vBucket, 3 copies, seqnos <=2, mut + seqno-advanced, reports in any order / vbUUID, absent replicas, Close()", 5000),
+                                mc("MCRm2", "1 vBucket, 2 copies, seqnos <=3, mut / system / seqno-advanced, reports in any order, absent replica, 1 ack, Close()", 5000)]},
     # the same behaviours on the emulated replica table and (rig RmReal) on the REAL polling rollbackMitigation over a simulated cluster
     "simulate": {"quick": [sim("SimRm", 60, 50), sim("SimRm2", 80, 44), sim("SimRm2M", 30, 44, isolate=True, salt=5, rig={"RmReal": True}), sim("SimRmM", 15, 50, isolate=True, salt=6, rig={"RmReal": True})],
                  "thorough": [sim("SimRm", 1200, 60), sim("SimRm2", 1500, 50), sim("SimRmM", 150, 60, isolate=True, salt=5, rig={"RmReal": True}),
